@@ -173,6 +173,8 @@ CATALOGUE = [
     ("C01", "c01-no-condition-colours", PL, "                injected_count = self._inject_condition_wire_colors(placement, injected_count)\n", "", 1, "fire", "C01-R14"),
     ("C02", "c02-colour-default-red", CP, "        if len(colors) == 1:\n            return colors.pop()\n        return \"red\"", "        return \"red\"", 1, "fire", "C02-R11"),
     ("C15", "c15-params-merged", EL, "        self.parent.param_values = dict(param_values)\n", "        self.parent.param_values.update(param_values)\n", 1, "fire", "C15-R2"),
+    ("C15", "c15-return-place-unbound", EL, "                        self.parent.returned_entity_id = entity_id\n                        break\n", "                        break\n", 1, "fire", "C15-R15"),
+    ("C06", "c06-silent-skip", SL, "            else:\n                self._error(\n                    f\"Cannot set '{prop_name}': '{entity_name}' does not refer to a placed entity\",\n                    stmt,\n                )\n", "", 1, "fire", "C06-R15"),
     ("C19", "c19-dict-order-from-set", CP, "merge_list = sorted(source_merge_edges.keys())", "merge_list = list(source_merge_edges)", 1, "fire", "C19-R1"),
 ]
 
